@@ -29,6 +29,10 @@ def _claim_numbers(enc, cl):
             yield from E.as_dual(c)
             yield from enc.numbers_poly(m)
         yield from E.as_dual(cl["k"])
+    if cl["t"] == "recpts":
+        for eq in cl["eqs"]:
+            yield from enc.numbers_poly(eq["lhs"])
+            yield from enc.numbers_poly(eq["rhsp"])
     if "thr" in cl:
         yield from E.as_dual(cl["thr"])
     if "vals" in cl:
@@ -54,6 +58,8 @@ def _enc_claim(enc, cl, D):
     if cl["t"] == "rec":
         out["rhs"] = [{"c": E.enc_s(c, D), "m": enc.poly(m, D)} for c, m in cl["rhs"]]
         out["k"] = E.enc_s(cl["k"], D)
+    if cl["t"] == "recpts":
+        out["eqs"] = [{"lhs": enc.poly(eq["lhs"], D), "rhsp": enc.poly(eq["rhsp"], D)} for eq in cl["eqs"]]
     if "thr" in cl:
         out["thr"] = E.enc_s(cl["thr"], D)
     if cl["t"] == "supp":
